@@ -306,8 +306,8 @@ def insertHash (ht : List (List Nat)) (name : Bytes) (blk : Nat) : List (List Na
 def encodeTable (rows : List (List Nat)) (key : W32) : Bytes :=
   ofWords (Model.encryptBlock (rows.flatMap fun r => r.map (BitVec.ofNat 32)) key)
 
-/-- a V1 (version = 0) or V2 (version = 1) archive: header, files, hash table, block table -/
-def writeArchive (c : Conv) (version shift hashSize : Nat) (files : List FileSpec) : Bytes :=
+/-- a V1 (version = 0) or V2 (version = 1) archive around a given hash table: header, files, hash table, block table -/
+def writeArchiveCore (c : Conv) (version shift hashSize : Nat) (files : List FileSpec) (ht : List (List Nat)) : Bytes :=
   let hdr := if version = 0 then 32 else 44
   let ssz := 512 * 2 ^ shift
   let rec place : List FileSpec → Nat → List (Bytes × Nat × Nat × Nat × Nat)   -- body, pos, csize, fsize, flags
@@ -316,7 +316,6 @@ def writeArchive (c : Conv) (version shift hashSize : Nat) (files : List FileSpe
                       (body, pos, body.length, f.data.length, flags) :: place fs (pos + body.length)
   let placed := place files hdr
   let dataEnd := hdr + (placed.map (·.1.length)).sum
-  let ht := (files.zipIdx).foldl (fun t (f, i) => insertHash t f.name i) (List.replicate hashSize emptyHash)
   let bt := placed.map fun (_, pos, cs, fs, fl) => [pos, cs, fs, fl]
   let htBytes := encodeTable ht tableKeyHash
   let btBytes := encodeTable bt tableKeyBlock
@@ -325,5 +324,35 @@ def writeArchive (c : Conv) (version shift hashSize : Nat) (files : List FileSpe
     natLE 4 dataEnd ++ natLE 4 (dataEnd + htBytes.length) ++ natLE 4 hashSize ++ natLE 4 files.length ++
     (if version = 0 then [] else natLE 8 0 ++ natLE 2 0 ++ natLE 2 0)
   header ++ placed.flatMap (·.1) ++ htBytes ++ btBytes
+
+/-- the builder's archive: every file inserted by linear probing into a fresh table -/
+def writeArchive (c : Conv) (version shift hashSize : Nat) (files : List FileSpec) : Bytes :=
+  writeArchiveCore c version shift hashSize files
+    ((files.zipIdx).foldl (fun t (f, i) => insertHash t f.name i) (List.replicate hashSize emptyHash))
+
+/-- slot a live entry of this name occupies (the lookup's walk, returning the slot instead of the block index) -/
+def findSlotIn (ht : List (List Nat)) (a b : Nat) : List Nat → Option Nat
+  | [] => none
+  | i :: rest =>
+    match ht[i]? with
+    | some [n1, n2, _, blk] =>
+      if blk = 0xFFFFFFFF then none
+      else if blk ≠ 0xFFFFFFFE ∧ n1 = a ∧ n2 = b then some i
+      else findSlotIn ht a b rest
+    | _ => none
+
+def deletedHash : List Nat := [0xFFFFFFFF, 0xFFFFFFFF, 0xFFFFFFFF, 0xFFFFFFFE]
+
+/-- what an independent writer leaves behind after "add the tombstone names, add the files, remove the tombstone names":
+    files may sit behind deleted markers in their probe chains (the published lookup walks over those) -/
+def writeArchiveTomb (c : Conv) (version shift hashSize : Nat) (tomb : List Bytes) (files : List FileSpec) : Bytes :=
+  let ht0 := tomb.foldl (fun t n => insertHash t n 0) (List.replicate hashSize emptyHash)
+  let ht1 := (files.zipIdx).foldl (fun t (f, i) => insertHash t f.name i) ht0
+  let ht2 := tomb.foldl (fun t n =>
+      if t.length = 0 then t else
+      match findSlotIn t (hashS 0x100 n).toNat (hashS 0x200 n).toNat (probeSeq t.length ((hashS 0 n).toNat % t.length)) with
+      | some i => t.set i deletedHash
+      | none => t) ht1
+  writeArchiveCore c version shift hashSize files ht2
 
 end Wv.Mpq
